@@ -7,6 +7,7 @@ Confirm a seeded change (patch.diff + demo.py) in a scratch worktree outside /re
   5. each check is run with VERIF_REPO=<scratch> and must exit 1 with a VIOLATION line.
 The scratch worktree is removed afterwards; evidence files are restored."""
 import json, os, shutil, subprocess, sys, tempfile
+VERIF = __import__("os").path.dirname(__import__("os").path.dirname(__import__("os").path.abspath(__file__)))  # this checkout, wherever it is
 sd = os.path.abspath(sys.argv[1]); ids = sys.argv[2].split(",")
 suite = "--suite" in sys.argv
 tier = sys.argv[sys.argv.index("--tier") + 1] if "--tier" in sys.argv else "quick"
@@ -32,9 +33,9 @@ try:
         res["suite_failed"] = sorted(l.split()[1].split("[")[0] for l in lines if l.startswith("FAILED"))
     res["checks"] = {}
     for i in ids:
-        ev = "/verif/evidence/%s.json" % i
+        ev = VERIF + "/evidence/%s.json" % i
         bak = open(ev).read() if os.path.exists(ev) else None
-        r = subprocess.run(["/verif/check", i, tier], env=dict(os.environ, VERIF_REPO=wt), capture_output=True, text=True)
+        r = subprocess.run([VERIF + "/check", i, tier], env=dict(os.environ, VERIF_REPO=wt), capture_output=True, text=True)
         lines = [l for l in r.stdout.splitlines() if l.startswith(("VIOLATION", "  what", "INCONCLUSIVE", "KNOWN"))]
         res["checks"][i] = {"rc": r.returncode, "caught": r.returncode == 1, "lines": lines[:4]}
         if r.returncode not in (0, 1): res["checks"][i]["tail"] = (r.stdout + r.stderr)[-600:]
@@ -47,7 +48,7 @@ if "--keep" in sys.argv:
     if not ok:
         print("NOT KEPT: demonstration not confirmed"); sys.exit(1)
     name = os.path.basename(sd)
-    dst = "/verif/seeded/" + name
+    dst = VERIF + "/seeded/" + name
     os.makedirs(dst, exist_ok=True)
     shutil.copy(sd + "/patch.diff", dst); shutil.copy(sd + "/demo.py", dst)
     meta = {}
